@@ -224,7 +224,7 @@ def accept_cases():
         out.append(("void f(int n, int *a, int b)", {"b": {"implied": v}}, "implied-is-one-expression", "reject"))
     for v in ("n", "n,m", "size(b)", "n+1", "2*n"):
         out.append(("void f(int n, int m, int *b, int *a)", {"a": {"dimension": v}}, "dimension-documented-form", "accept"))
-    for v in ("size(a)", "size(a,1)", "len(s)", "len_trim(s)", "n+1"):
+    for v in ("size(a)", "len(s)", "len_trim(s)", "n+1"):
         out.append(("void f(int n, int *a, char *s, int b)", {"b": {"implied": v}}, "implied-documented-form", "accept"))
     return out
 
